@@ -9,6 +9,8 @@
 From Coq Require Import List Arith Bool Lia Reals Lra String.
 From NV Require Import Scalar.Ops Model.Common Model.Knots Model.Layout Model.Exchange
   Proofs.KnotsR Proofs.LayoutR Proofs.ExchangeP Proofs.ExchangeR Proofs.ExchangeM.
+(* not used by the statements: makes the harness comparison helpers part of this file's build closure *)
+From NV Require Run.ExchangeH.
 Import ListNotations.
 Open Scope list_scope.
 
@@ -74,6 +76,14 @@ Proof.
   apply csv_roundtrip. exact H.
 Qed.
 Print Assumptions C14_txt_csv_roundtrip.
+
+(* [G] the same formats for an arbitrary codec (no hypothesis): each number comes back as parse (print x) and nothing else
+   changes - this is the precise meaning of "up to the printed precision" for the txt / csv formats *)
+Theorem C14_txt_csv_any_codec : forall (Sx : Type) (pr : R -> Sx) (pa : Sx -> R) (pts : list (list R)),
+  import_txt1 pa (export_txt1 pr pts) = map (map (fun x => pa (pr x))) pts /\
+  import_csv pa (export_csv pr pts) = map (map (fun x => pa (pr x))) pts.
+Proof. intros. apply txt_csv_any_codec. Qed.
+Print Assumptions C14_txt_csv_any_codec.
 
 (* [G] documented row / column order.  smesh: 5 header rows (dimension; degrees; sizes; the two knot vectors), then the
    row of point (u,v) is number u + size_u*v (u fastest) and holds (x,y,z,w); vmesh: 6 header rows, then row
